@@ -11,6 +11,7 @@ mod checks;
 mod fixtures;
 #[allow(dead_code)]
 mod idmfx;
+mod o2fx;
 mod pw;
 #[allow(dead_code)]
 mod srv;
